@@ -18,6 +18,8 @@ import (
 	goat "github.com/avos-io/goat"
 	"github.com/avos-io/goat/internal/verifhook"
 	"google.golang.org/grpc"
+	"google.golang.org/grpc/codes"
+	"google.golang.org/grpc/status"
 	"google.golang.org/protobuf/types/known/wrapperspb"
 )
 
@@ -241,6 +243,9 @@ func plusOneEcho() *echoImpl {
 					}
 					return err
 				}
+				if tokenOf(m.Value) >= abortMarker {
+					return status.Error(codes.Code(3), "m3") // gives up while the client may still be sending
+				}
 				if err := s.SendMsg(&wrapperspb.BytesValue{Value: payloadOf(tokenOf(m.Value) + 1)}); err != nil {
 					return err
 				}
@@ -248,6 +253,8 @@ func plusOneEcho() *echoImpl {
 		},
 	}
 }
+
+const abortMarker = 500000000
 
 // TestC05Free: one real connection (real client, real server, real goroutine
 // concurrency, seeded yields at the verif hook points): 64 goroutines start
@@ -276,6 +283,7 @@ func TestC05Free(t *testing.T) {
 	defer verifhook.SetYield(nil)
 	l := NewLink(true)
 	l.Auto = true
+	l.C.CheckCtx = true
 	var idMu sync.Mutex
 	var firstIDs []int64
 	fwd := l.C.OnWrite
@@ -294,6 +302,7 @@ func TestC05Free(t *testing.T) {
 	cc := goat.NewClientConn(l.C, "c1", "srv")
 	var pairMu sync.Mutex
 	var pairs []string
+	var failed atomic.Int64
 	nstream := 0
 	var wg sync.WaitGroup
 	start := make(chan struct{})
@@ -309,11 +318,34 @@ func TestC05Free(t *testing.T) {
 				// not an oracle: only keeps a caller whose reply went to somebody else from blocking the rig for ever
 				cctx, ccancel := context.WithTimeout(context.Background(), 10*time.Second)
 				_ = ccancel
+				if i%7 == 3 {
+					// a call whose transport write fails cleanly (its context has ended) while the others are in flight
+					dead, kill := context.WithCancel(cctx)
+					kill()
+					var out wrapperspb.BytesValue
+					if err := cc.Invoke(dead, "/verif.Echo/Unary", &wrapperspb.BytesValue{Value: payloadOf(tok)}, &out); err == nil {
+						mine = append(mine, fmt.Sprintf("(%d, -4)", tok)) // cannot have succeeded
+					}
+					failed.Add(1)
+					ccancel()
+					continue
+				}
 				if i%10 == 9 {
 					ns++
 					cs, err := cc.NewStream(cctx, descBidi, "/verif.Echo/Bidi")
 					if err != nil {
 						mine = append(mine, fmt.Sprintf("(%d, -1)", tok))
+						continue
+					}
+					if ns%3 == 0 {
+						// the handler aborts at the first message; a second one is already on its way
+						cs.SendMsg(&wrapperspb.BytesValue{Value: payloadOf(abortMarker + tok)})
+						cs.SendMsg(&wrapperspb.BytesValue{Value: payloadOf(tok + 1)})
+						var m wrapperspb.BytesValue
+						if err := cs.RecvMsg(&m); err == nil {
+							mine = append(mine, fmt.Sprintf("(%d, %d)", tok+1, tokenOf(m.Value))) // at most the echo of its own message
+						}
+						ccancel()
 						continue
 					}
 					for j := int64(0); j < 2; j++ {
@@ -359,7 +391,7 @@ func TestC05Free(t *testing.T) {
 	for i, v := range ids {
 		idTerms[i] = fmt.Sprint(v)
 	}
-	ncalls := (total / G) * G
+	ncalls := (total/G)*G - int(failed.Load()) // the calls whose write failed put nothing on the wire
 	em.Emit(Rec{Idx: 0, Kind: "c05-free", Desc: map[string]any{"goroutines": G, "calls": ncalls, "streams": nstream, "pairs": len(pairs), "ids": len(ids)},
 		Tags: []string{fmt.Sprintf("calls=%d", ncalls), "goroutines=64"},
 		Coq:  fmt.Sprintf("C05Free %d %s %s", ncalls, coqList(idTerms), coqList(pairs))})
